@@ -93,6 +93,34 @@ theorem C03_transfer_into (interp : Nat → Val → Option Nat) (src dest : Stk)
   · obtain ⟨_, _, _, h3, h4⟩ := transfer_fold interp src.xs dest hd hsm
     exact C03_bound _ h4 k (by rw [h3, hk])
 
+/-- Transfer of a capped stack into ITSELF (one instance on both sides) never exceeds the capacity either, keeps what was there in
+front, and leaves the configuration alone -/
+theorem C03_transfer_self (s : Stk) (k : Nat) (hk : s.cfg.cap = (k : Int) + 1) (hl : s.xs.length ≤ k) :
+    s.transferSelf.1.xs.length ≤ k ∧ s.transferSelf.1.cfg = s.cfg ∧ s.transferSelf.1.xs.take s.xs.length = s.xs := by
+  have hk' : (s.cfg.cap - 1).toNat = k := by rw [hk]; omega
+  unfold transferSelf
+  simp only [hk']
+  split
+  · exact ⟨hl, rfl, List.take_length⟩
+  · split
+    · exact ⟨hl, rfl, List.take_length⟩
+    · split
+      · exact ⟨hl, rfl, List.take_length⟩
+      · rename_i h1 h2 h3
+        refine ⟨by simp, rfl, ?_⟩
+        simp only [beq_iff_eq] at h3
+        apply List.ext_getElem
+        · simp only [List.length_take, List.length_map, List.length_range]; omega
+        · intro i h1' h2'
+          simp only [List.length_take, List.length_map, List.length_range] at h1'
+          have hi : i < s.xs.length := by omega
+          simp only [List.getElem_take, List.getElem_map, List.getElem_range, Nat.mod_eq_of_lt hi]
+          simp [List.getD_eq_getElem?_getD, hi]
+
+example : (⟨{ kind := 4, cap := 5 }, [.leaf (.int 1), .nil]⟩ : Stk).transferSelf.1.xs.length = 4 ∧
+    (⟨{ kind := 4, cap := 5 }, [.leaf (.int 1), .nil]⟩ : Stk).transferSelf.2 = false ∧
+    (⟨{ kind := 4, cap := 5 }, [.leaf (.int 1), .nil]⟩ : Stk).transferSelf.1.xs.map Val.isNil = [false, true, false, true] := by decide
+
 /-- the getters: `Cap() == k`, `Avail() == k - Len()`, `IsFull() == (Len() == k)` -/
 theorem C03_getters (s : Stk) (k : Nat) (hwf : s.WF) (hk : s.cfg.cap = (k : Int) + 1) :
     s.Cap = k ∧ s.Avail = (k : Int) - s.xs.length ∧ (s.isFull = true ↔ s.xs.length = k) := by
